@@ -99,6 +99,7 @@ func (w *WatcherHub) Stream(input chan []*proto.Event) {
 		for _, sub := range slow {
 			w.DeleteWatcher(sub, true)
 		}
+		verifhook.Yield("hub.delivered", uint64(len(item)), 0)
 	}
 
 	w.Lock()
